@@ -7,7 +7,7 @@ import plan
 
 TEXT = {
  "C01": ("Bounded proof (Kani/CBMC) that the real kernel-sum, coinbase-sum, kernel-offset-sum and transaction / body validation code accepts only balanced transactions and consults every signature and range proof (coinbase-flagged outputs included), with libsecp256k1 replaced by a homomorphic image of the commitment group and oracle bits for signatures / range proofs.",
-         "partial: chain histories (pipe.rs, txhashset) and Block::validate as a whole are not claimed; known finding: sum_kernel_offsets ignores the negative offsets when no positive one is non-zero (witness obligation, KNOWN-FINDING); model group Z_2^16^2; trusted: rustc->Kani->CBMC->CaDiCaL and the stubs listed in evidence"),
+         "partial: chain histories (pipe.rs, txhashset) are not claimed; Block::validate is decided for the smallest block only (thorough tier); known finding: sum_kernel_offsets ignores the negative offsets when no positive one is non-zero (witness obligation, KNOWN-FINDING); model group Z_2^16^2; trusted: rustc->Kani->CBMC->CaDiCaL and the stubs listed in evidence"),
  "C04": ("Bounded proof (Kani/CBMC) that the retarget functions are total, floored, damped/clamped and that the version schedule / graph weight arithmetic, the DMA/WTEMA dispatch and the choice of the PoW scaling factor follow the rules, for fully symbolic difficulty windows.",
          "partial: pipe::validate_header sequencing, DifficultyIter (LMDB), PoW and header-MMR root not claimed; bounds on window values stated in evidence"),
  "C05": ("Bounded proof (Kani/CBMC): Cuckatoo cycle verification agrees with an oracle written from the graph definition for every nonce tuple and every assignment of endpoints (proof size 2 quick, 4 thorough); PoW variant selection; proof (de)serialisation bit-exact, in-range, canonical padding.",
